@@ -27,6 +27,8 @@ type G struct {
 	parked chan struct{}
 	op     *Op
 	done   bool
+	vc     []int32 // happens-before clock of the goroutine's last step (HB mode)
+	nstep  int32
 }
 
 // OpKind enumerates visible operations.
@@ -98,6 +100,19 @@ type Sched struct {
 	Diverged    string
 	TimersFired int
 	objSeq      int
+
+	// happens-before fingerprinting (Options.HB)
+	hb      bool
+	touched []touchRec
+	fp      [2]uint64
+	epoch   uint64
+	addrClk map[unsafe.Pointer]*Clk
+	keyClk  map[string]*Clk
+	spawned []*G
+	gSpawn  Clk
+	gTimers Clk
+	gClock  Clk
+	gExt    Clk
 }
 
 // Choice is one recorded decision point (only points with more than one transition are recorded).
@@ -106,6 +121,7 @@ type Choice struct {
 	NCur      int  // number of leading transitions that continue the running goroutine
 	CurOK     bool // running goroutine could have continued (switching = preemption)
 	Preempted bool
+	Key       [2]uint64 // HB mode: fingerprint of the state in which the decision is taken
 }
 
 // S is the active scheduler (nil = passthrough).
@@ -131,8 +147,9 @@ func Branching(on bool) {
 
 // Now returns the virtual time in nanoseconds.
 func Now() int64 {
-	if S != nil {
-		return S.Now
+	if s := S; s != nil {
+		s.touch(&s.gClock, false)
+		return s.Now
 	}
 	return 0
 }
@@ -190,6 +207,10 @@ func (s *Sched) recordPanic(g *G, r any) {
 func (s *Sched) spawn(name string, f func()) *G {
 	g := &G{ID: len(s.gs), Name: name, wake: make(chan bool), parked: make(chan struct{})}
 	s.gs = append(s.gs, g)
+	if s.hb {
+		s.spawned = append(s.spawned, g)
+		s.touched = append(s.touched, touchRec{&s.gSpawn, true})
+	}
 	go func() {
 		defer func() {
 			if r := recover(); r != nil {
@@ -395,15 +416,38 @@ func (s *Sched) fire(t trans) []*G {
 		op.Chosen = t.caseIdx
 	case OpLock:
 		op.Obj.(lockable).doLock()
+		s.touch(op.Obj.(lockable).clock(), true)
 	case OpRLock:
 		op.Obj.(*RWMutexState).doRLock()
+		s.touch(&op.Obj.(*RWMutexState).clk, true)
 	case OpCondWake:
 		op.Obj.(*condWaiter).mu.doLock()
+		s.touch(op.Obj.(*condWaiter).mu.clock(), true)
+		s.touch(op.Obj.(*condWaiter).cond, true)
+	case OpWGWait:
+		s.touch(&op.Obj.(*WGState).clk, false)
+	case OpOnce:
+		s.touch(&op.Obj.(*OnceState).clk, true)
 	case OpSend, OpRecv, OpSelect:
 		op.Chosen = t.caseIdx
+		if t.caseIdx < 0 && s.hb {
+			// default: the step observed that no case was ready
+			for _, c := range op.Cases {
+				if c != nil {
+					if cs := c.state(s); cs != nil {
+						s.touch(&cs.clk, false)
+					}
+				}
+			}
+			s.touch(&s.gExt, false)
+		}
 		if t.caseIdx >= 0 {
 			c := op.Cases[t.caseIdx]
 			cs := c.state(s)
+			s.touch(&cs.clk, true)
+			if cs.ext {
+				s.touch(&s.gExt, false)
+			}
 			if c.isSend() {
 				if cs.closed {
 					op.OK = false
@@ -453,6 +497,7 @@ type Options struct {
 	KeepTrace bool
 	RelPoints bool
 	MaxSteps  int
+	HB        bool // compute happens-before state fingerprints (Choice.Key)
 }
 
 // Run executes main under the scheduler following prefix, then default choices.
@@ -460,13 +505,16 @@ func Run(prefix []int, o Options, main func()) Result {
 	if S != nil {
 		panic("vrt: nested Run")
 	}
-	s := &Sched{prefix: prefix, chans: map[unsafe.Pointer]*ChanState{}, KeepTrace: o.KeepTrace, MaxSteps: o.MaxSteps, RelPoints: o.RelPoints}
+	s := &Sched{prefix: prefix, chans: map[unsafe.Pointer]*ChanState{}, KeepTrace: o.KeepTrace, MaxSteps: o.MaxSteps, RelPoints: o.RelPoints, hb: o.HB}
 	if s.MaxSteps == 0 {
 		s.MaxSteps = 100000
 	}
 	S = s
 	root := s.spawn("main", main)
 	s.resume(root)
+	if s.hb {
+		s.endStep([]*G{root}, 0)
+	}
 	last := root
 	res := Result{}
 	h := fnv.New64a()
@@ -475,6 +523,9 @@ func Run(prefix []int, o Options, main func()) Result {
 		ts := s.enabled()
 		if len(ts) == 0 {
 			if s.fireTimer() {
+				if s.hb {
+					s.barrier(1)
+				}
 				continue
 			}
 			break
@@ -503,7 +554,11 @@ func Run(prefix []int, o Options, main func()) Result {
 					pick = 0
 				}
 			}
-			s.Choices = append(s.Choices, Choice{N: len(ts), Pick: pick, NCur: ncur, CurOK: curOK, Preempted: curOK && !ts[pick].involves(last)})
+			c := Choice{N: len(ts), Pick: pick, NCur: ncur, CurOK: curOK, Preempted: curOK && !ts[pick].involves(last)}
+			if s.hb {
+				c.Key = [2]uint64{mix(s.fp[0], uint64(last.ID)+1), mix(s.fp[1], uint64(last.ID)+1)}
+			}
+			s.Choices = append(s.Choices, c)
 		}
 		t := ts[pick]
 		hb[0], hb[1], hb[2], hb[3] = byte(t.g.ID), byte(t.g.op.Kind), byte(t.caseIdx+1), byte(len(ts))
@@ -512,8 +567,16 @@ func Run(prefix []int, o Options, main func()) Result {
 			s.Trace = append(s.Trace, s.describe(t, len(ts)))
 		}
 		s.Steps++
-		for _, g := range s.fire(t) {
+		if s.hb && t.g.op.Kind == OpIdle {
+			s.barrier(2)
+		}
+		label := uint64(t.g.op.Kind)<<32 | uint64(uint32(t.caseIdx+1))<<8 | uint64(uint8(t.pcase))
+		fired := s.fire(t)
+		for _, g := range fired {
 			s.resume(g)
+		}
+		if s.hb {
+			s.endStep(fired, label)
 		}
 		last = t.g
 	}
@@ -572,10 +635,17 @@ func (s *Sched) describe(t trans, n int) string {
 type lockable interface {
 	canLock() bool
 	doLock()
+	clock() *Clk
 }
 
 // MutexState is the shadow state of a mutex.
-type MutexState struct{ held bool }
+type MutexState struct {
+	held bool
+	clk  Clk
+}
+
+func (m *MutexState) clock() *Clk   { return &m.clk }
+func (m *RWMutexState) clock() *Clk { return &m.clk }
 
 func (m *MutexState) canLock() bool { return !m.held }
 func (m *MutexState) doLock()       { m.held = true }
@@ -596,6 +666,7 @@ func (m *MutexState) Lock() {
 // TryLock tries to acquire.
 func (m *MutexState) TryLock() bool {
 	Point()
+	Touch(&m.clk, true)
 	if m.held {
 		return false
 	}
@@ -610,6 +681,7 @@ func (m *MutexState) Unlock() {
 		panic("sync: unlock of unlocked mutex")
 	}
 	m.held = false
+	Touch(&m.clk, true)
 }
 
 // RWMutexState is the shadow state of a RWMutex (writer preference as in Go).
@@ -617,6 +689,7 @@ type RWMutexState struct {
 	writer   bool
 	readers  int
 	wwaiting int
+	clk      Clk
 }
 
 func (m *RWMutexState) canLock() bool  { return !m.writer && m.readers == 0 }
@@ -638,11 +711,12 @@ func (m *RWMutexState) Lock() {
 	// a scheduling point before it lets a reader that is about to RLock win the race
 	s.park(&Op{Kind: OpAtomic})
 	m.wwaiting++
+	Touch(&m.clk, true)
 	s.park(&Op{Kind: OpLock, Obj: m})
 }
 
 // Unlock releases the write lock.
-func (m *RWMutexState) Unlock() { RelPoint(); m.writer = false }
+func (m *RWMutexState) Unlock() { RelPoint(); m.writer = false; Touch(&m.clk, true) }
 
 // RLock acquires a read lock.
 func (m *RWMutexState) RLock() {
@@ -663,15 +737,20 @@ func (m *RWMutexState) RUnlock() {
 	if m.readers > 0 {
 		m.readers--
 	}
+	Touch(&m.clk, true)
 }
 
 type condWaiter struct {
 	mu        lockable
 	signalled bool
+	cond      *Clk
 }
 
 // CondState is the shadow state of a condition variable.
-type CondState struct{ waiters []*condWaiter }
+type CondState struct {
+	waiters []*condWaiter
+	clk     Clk
+}
 
 // Wait releases mu, waits for a signal and re-acquires mu.
 func (c *CondState) Wait(mu lockable, unlock func()) {
@@ -679,8 +758,9 @@ func (c *CondState) Wait(mu lockable, unlock func()) {
 	if s.aborting {
 		runtime.Goexit()
 	}
-	w := &condWaiter{mu: mu}
+	w := &condWaiter{mu: mu, cond: &c.clk}
 	c.waiters = append(c.waiters, w)
+	Touch(&c.clk, true)
 	unlock()
 	s.park(&Op{Kind: OpCondWake, Obj: w})
 }
@@ -688,6 +768,7 @@ func (c *CondState) Wait(mu lockable, unlock func()) {
 // Broadcast wakes all waiters.
 func (c *CondState) Broadcast() {
 	RelPoint()
+	Touch(&c.clk, true)
 	for _, w := range c.waiters {
 		w.signalled = true
 	}
@@ -697,6 +778,7 @@ func (c *CondState) Broadcast() {
 // Signal wakes the longest waiter.
 func (c *CondState) Signal() {
 	RelPoint()
+	Touch(&c.clk, true)
 	if len(c.waiters) > 0 {
 		c.waiters[0].signalled = true
 		c.waiters = c.waiters[1:]
@@ -704,7 +786,10 @@ func (c *CondState) Signal() {
 }
 
 // WGState is the shadow state of a WaitGroup.
-type WGState struct{ n int }
+type WGState struct {
+	n   int
+	clk Clk
+}
 
 // Add adds d.
 func (w *WGState) Add(d int) {
@@ -712,6 +797,7 @@ func (w *WGState) Add(d int) {
 		RelPoint()
 	}
 	w.n += d
+	Touch(&w.clk, true)
 	if w.n < 0 {
 		panic("sync: negative WaitGroup counter")
 	}
@@ -726,18 +812,22 @@ func (w *WGState) Wait() {
 }
 
 // OnceState is the shadow state of a Once.
-type OnceState struct{ running, done bool }
+type OnceState struct {
+	running, done bool
+	clk           Clk
+}
 
 // Do runs f once.
 func (o *OnceState) Do(f func()) {
 	Point()
+	Touch(&o.clk, true)
 	for {
 		if o.done {
 			return
 		}
 		if !o.running {
 			o.running = true
-			defer func() { o.running = false; o.done = true }()
+			defer func() { o.running = false; o.done = true; Touch(&o.clk, true) }()
 			f()
 			return
 		}
@@ -757,6 +847,8 @@ type ChanState struct {
 	closed bool
 	keep   any // keeps the real channel alive (its address is the identity)
 	id     int
+	clk    Clk
+	ext    bool // something reached the channel from outside the scheduler (context cancellation, ...)
 }
 
 func chanPtr[T any](ch <-chan T) unsafe.Pointer { return *(*unsafe.Pointer)(unsafe.Pointer(&ch)) }
@@ -826,6 +918,7 @@ func Close[T any](ch chan<- T) {
 		panic("close of closed channel")
 	}
 	cs.closed = true
+	Touch(&cs.clk, true)
 }
 
 // Len is len(ch) under the scheduler.
@@ -838,6 +931,7 @@ func Len[T any](ch <-chan T) int {
 	if cs == nil {
 		return 0
 	}
+	Touch(&cs.clk, false)
 	return len(cs.buf)
 }
 
@@ -871,6 +965,7 @@ func (c *RecvC[T]) pollReal(cs *ChanState) {
 	}
 	select {
 	case v, ok := <-c.ch:
+		cs.ext = true
 		if !ok {
 			cs.closed = true
 		} else {
@@ -1019,6 +1114,8 @@ func (s *Sched) fireTimer() bool {
 	}
 	best.active = false
 	s.TimersFired++
+	s.touch(&s.gTimers, true)
+	s.touch(&s.gClock, true)
 	best.fire()
 	// compact
 	if len(s.timers) > 64 {
@@ -1052,7 +1149,11 @@ func FireNextTimer() bool {
 	if s == nil {
 		return false
 	}
-	return s.fireTimer()
+	ok := s.fireTimer()
+	if ok && s.hb {
+		s.barrier(3)
+	}
+	return ok
 }
 
 // AddTimer registers a virtual timer; fire runs on the scheduler side and must not block.
@@ -1061,12 +1162,15 @@ func AddTimer(d int64, fire func()) (stop func() bool) {
 	s.tseq++
 	t := &vtimer{when: s.Now + d, fire: fire, active: true, seq: s.tseq}
 	s.timers = append(s.timers, t)
-	return func() bool { was := t.active; t.active = false; return was }
+	s.touch(&s.gTimers, true)
+	s.touch(&s.gClock, false)
+	return func() bool { s.touch(&s.gTimers, true); was := t.active; t.active = false; return was }
 }
 
 // TimerSend delivers v into ch's shadow buffer (timer channels have capacity 1).
 func TimerSend[T any](ch chan T, v T) {
 	cs := stateOf(S, (<-chan T)(ch))
+	S.touch(&cs.clk, true)
 	if len(cs.buf) < 1 {
 		cs.buf = append(cs.buf, any(v))
 	}
@@ -1075,6 +1179,7 @@ func TimerSend[T any](ch chan T, v T) {
 // DrainTimer removes a pending value (Go >= 1.23 Stop/Reset semantics).
 func DrainTimer[T any](ch chan T) bool {
 	cs := stateOf(S, (<-chan T)(ch))
+	S.touch(&cs.clk, true)
 	had := len(cs.buf) > 0
 	cs.buf = nil
 	return had
@@ -1085,4 +1190,164 @@ func SpawnFromTimer(f func()) {
 	s := S
 	g := s.spawn("afterfunc", f)
 	s.resume(g)
+}
+
+// ---------------------------------------------------------------- happens-before fingerprints
+//
+// In HB mode every step (the code a goroutine runs from one visible operation up to the next) records the
+// synchronisation objects it touches. A step happens after the previous step of its goroutine(s), after the
+// last writing step of every object it touches and, if it writes the object, after all steps that read it.
+// The state reached by a prefix is identified by the set of its steps, each labelled with goroutine, per-
+// goroutine index, chosen alternative and vector clock: two prefixes with equal sets are linearisations of
+// the same partial order, and - provided goroutines communicate only through touched objects (data-race
+// freedom; harness-level shared state is declared with TouchKey) - end in the same state.
+
+// Clk is the happens-before clock of one synchronisation object.
+type Clk struct{ w, r []int32 }
+
+type touchRec struct {
+	c     *Clk
+	write bool
+}
+
+func (s *Sched) touch(c *Clk, write bool) {
+	if s.hb {
+		s.touched = append(s.touched, touchRec{c, write})
+	}
+}
+
+// Touch records that the running step accesses the object owning c.
+func Touch(c *Clk, write bool) {
+	if s := S; s != nil && s.hb {
+		s.touched = append(s.touched, touchRec{c, write})
+	}
+}
+
+// TouchAddr records an access to the object at address p (atomics).
+func TouchAddr(p unsafe.Pointer, write bool) {
+	s := S
+	if s == nil || !s.hb {
+		return
+	}
+	c := s.addrClk[p]
+	if c == nil {
+		if s.addrClk == nil {
+			s.addrClk = map[unsafe.Pointer]*Clk{}
+		}
+		c = &Clk{}
+		s.addrClk[p] = c
+	}
+	s.touched = append(s.touched, touchRec{c, write})
+}
+
+// TouchKey records an access to a named piece of shared state that is not a synchronisation object of the
+// code under test (harness logs, probes, context cancellation).
+func TouchKey(key string, write bool) {
+	s := S
+	if s == nil || !s.hb {
+		return
+	}
+	c := s.keyClk[key]
+	if c == nil {
+		if s.keyClk == nil {
+			s.keyClk = map[string]*Clk{}
+		}
+		c = &Clk{}
+		s.keyClk[key] = c
+	}
+	s.touched = append(s.touched, touchRec{c, write})
+}
+
+// TouchExternal records an access to state that lives outside the scheduler's shadow objects (the real
+// context tree): cancellation writes it, Err()/Done() observers read it.
+func TouchExternal(write bool) {
+	if s := S; s != nil && s.hb {
+		s.touched = append(s.touched, touchRec{&s.gExt, write})
+	}
+}
+
+func mix(h, v uint64) uint64 {
+	h ^= v + 0x9E3779B97F4A7C15 + (h << 6) + (h >> 2)
+	h *= 0xBF58476D1CE4E5B9
+	h ^= h >> 31
+	return h
+}
+
+func joinInto(dst []int32, src []int32) []int32 {
+	for len(dst) < len(src) {
+		dst = append(dst, 0)
+	}
+	for i, v := range src {
+		if v > dst[i] {
+			dst[i] = v
+		}
+	}
+	return dst
+}
+
+// endStep closes the running step of goroutines gs.
+func (s *Sched) endStep(gs []*G, label uint64) {
+	c := make([]int32, len(s.gs))
+	for _, g := range gs {
+		c = joinInto(c, g.vc)
+	}
+	for _, t := range s.touched {
+		c = joinInto(c, t.c.w)
+		if t.write {
+			c = joinInto(c, t.c.r)
+		}
+	}
+	h0, h1 := uint64(0x1234567), uint64(0x89abcdef)
+	for _, g := range gs {
+		g.nstep++
+		c[g.ID] = g.nstep
+		h0, h1 = mix(h0, uint64(g.ID)<<32|uint64(g.nstep)), mix(h1, uint64(g.nstep)<<32|uint64(g.ID))
+	}
+	h0, h1 = mix(h0, label), mix(h1, label)
+	for i, v := range c {
+		if v != 0 {
+			h0, h1 = mix(h0, uint64(i)<<32|uint64(v)), mix(h1, uint64(v)<<32|uint64(i))
+		}
+	}
+	for _, g := range gs {
+		g.vc = c
+	}
+	for _, g := range s.spawned {
+		if g.vc == nil {
+			g.vc = c
+		}
+	}
+	s.spawned = s.spawned[:0]
+	for _, t := range s.touched {
+		if t.write {
+			t.c.w, t.c.r = c, nil
+		} else {
+			t.c.r = joinInto(append([]int32(nil), t.c.r...), c)
+		}
+	}
+	s.touched = s.touched[:0]
+	s.fp[0] += h0
+	s.fp[1] += h1
+}
+
+// barrier orders everything that happened so far before everything that follows (timer firing and
+// quiescence detection depend on the whole state).
+func (s *Sched) barrier(kind uint64) {
+	var c []int32
+	for _, g := range s.gs {
+		c = joinInto(c, g.vc)
+	}
+	for _, t := range s.touched {
+		if t.write {
+			t.c.w, t.c.r = c, nil
+		}
+	}
+	s.touched = s.touched[:0]
+	for _, g := range s.gs {
+		g.vc = c
+	}
+	s.spawned = s.spawned[:0]
+	s.epoch++
+	s.fp[0] = mix(s.fp[0], s.epoch<<8|kind)
+	s.fp[1] = mix(s.fp[1], s.epoch<<8|kind)
 }
